@@ -24,6 +24,7 @@ RULE = (
 )
 RULE += (" Every payload length 1..130 is swept for every chain, and a quarter of the random payloads has 20-300 characters.")
 RULE += (" Chains with the base64 modifier twice: Base64 of the Base64 text.")
+RULE += (" Non-ASCII characters the UTF-16 modifiers accept (UTF-16 bytes that are well-formed UTF-8, e.g. U+80C2 / U+C280) are swept up to three symbols for all UTF-16 chains: character count and byte count of the encoded value differ there.")
 ASSUMPTIONS = [
     "python's base64 and codecs are the standard encodings",
     "utf16 means BOM FF FE followed by UTF-16LE (what the modifier documents)",
@@ -33,6 +34,7 @@ ASSUMPTIONS = [
 SHARDS = {"quick": 4, "thorough": 16}
 
 SYMS = ["a", "z", "é", "€", "\U0001F600", "Ā", " ", "=", "\\*", "\\\\"]
+ACCEPTED_NONASCII = ["\u80c2", "\uc280", "\u80df", "\ubfc2"]
 CHAINS = [["base64"], ["base64offset"], ["wide", "base64"], ["wide", "base64offset"],
           ["utf16be", "base64"], ["utf16be", "base64offset"], ["utf16", "base64"], ["utf16", "base64offset"],
           ["base64offset", "contains"], ["wide", "base64offset", "contains"], ["wide"], ["utf16be"], ["utf16"],
@@ -210,6 +212,14 @@ def run(ctx) -> None:
     if ctx.shard == 0:
         for chain in CHAINS:
             ctx.do({"chain": chain, "src": ""})
+    # non-ASCII characters the UTF-16 modifiers do accept (their UTF-16 bytes happen to be well-formed UTF-8:
+    # U+80C2 little endian, U+C280 big endian): character count and byte count of the encoded value differ
+    for n in range(1, 4):
+        for combo in itertools.product(ACCEPTED_NONASCII + ["a"], repeat=n):
+            for chain in CHAINS:
+                i += 1
+                if i % ctx.nshards == ctx.shard and chain[0] in ("wide", "utf16be", "utf16"):
+                    ctx.do({"chain": chain, "src": "".join(combo)})
     # every payload length 1..130 (crosses 57 = one base64 line of input, 76, 64, 128) for every chain
     j = 0
     for n in range(1, 131):
@@ -223,7 +233,7 @@ def run(ctx) -> None:
 @st.composite
 def random_cases(draw):
     chain = draw(st.sampled_from(CHAINS))
-    alphabet = st.one_of(st.sampled_from(SYMS + ["-", "/", "%", ".", "A", "0", "\n", "\x7f", "ÿ", "߿", "￿"]),
+    alphabet = st.one_of(st.sampled_from(SYMS + ["-", "/", "%", ".", "A", "0", "\n", "\x7f", "ÿ", "߿", "￿"] + ACCEPTED_NONASCII),
                          st.characters(blacklist_categories=["Cs"], blacklist_characters="*?\\").map(str))
     # lengths: mostly short, a quarter long (encoder line lengths 57/76, block sizes 64/128/256 are crossed)
     maxlen = draw(st.sampled_from([12, 12, 12, 300]))
